@@ -3,7 +3,8 @@
 correspondence (unit layer: the model's tables are loaded from a dump of the real database):
 FeatureDB.region / all_features(limit=) / features_of_type(limit=) / children(limit=) / parents(limit=)
 vs Interface.region / runQuery / runRelation.
-oracle (real code only): brute-force filter over all_features().
+oracle (real code only): brute-force filter over all_features(); also with several query results of one FeatureDB
+alive at once (nested loops, iterators advanced alternately): each of them is its brute-force answer.
 """
 import os
 
@@ -93,10 +94,12 @@ def brute(feats, seqid, start, end, within, strand=None, ftypes=None):
     return sorted(out)
 
 
-def do_query(db, feats, q):
+def do_query(db, feats, q, lazy=False):
     """run one query of the case on the real database.  returns (ids returned, sorted; the brute-force answer over
-    `feats` - None for the one-sided form, which has its own oracle; the model command of the same query)"""
+    `feats` - None for the one-sided form, which has its own oracle; the model command of the same query).
+    lazy=True: the first component is the iterator the query method returned, not yet advanced"""
     from gffutils.feature import Feature
+    ids = (lambda it: it) if lazy else (lambda it: sorted(f.id for f in it))
     kind, seqid, a, b = q["query"], q["seqid"], q["start"], q["end"]
     within, strand, ft = q["completely_within"], q["strand"], q["featuretype"]
     fts = None if ft is None else ([ft] if isinstance(ft, str) else list(ft))
@@ -117,7 +120,7 @@ def do_query(db, feats, q):
             got = db.region("%s:%d-%d%s" % (seqid, a, b, ":" + strand if strand else ""), **kw)
         elif kind == "region_seqid_only":
             # a bare 'seqid' string: no position clause at all, every feature of the sequence (also '.' coordinates)
-            got = sorted(f.id for f in db.region(seqid, strand=strand, **kw))
+            got = ids(db.region(seqid, strand=strand, **kw))
             want = sorted(f["id"] for f in feats if f["seqid"] == seqid and (strand is None or f["strand"] == strand)
                           and (fts is None or f["ftype"] in fts))
             cmd = "region %s ~ ~ %s %s %s" % (enc(seqid), "~" if strand is None else enc(strand),
@@ -130,7 +133,7 @@ def do_query(db, feats, q):
         else:
             got = db.region(start=a, end=b, strand=strand, **kw)
             sq = None
-        got = sorted(f.id for f in got)
+        got = ids(got)
         want = brute(feats, sq, a, b, within, want_strand, fts)
         cmd = "region %s %d %d %s %s %s" % ("~" if sq is None else enc(sq), a, b,
                                             "~" if want_strand is None else enc(want_strand),
@@ -138,10 +141,10 @@ def do_query(db, feats, q):
         return got, want, cmd
     if kind == "one_sided":
         if q["one_sided"] == "start":
-            got = sorted(f.id for f in db.region(seqid=seqid, start=a, completely_within=within))
+            got = ids(db.region(seqid=seqid, start=a, completely_within=within))
             cmd = "region %s %d ~ ~ ~ %s" % (enc(seqid), a, "1" if within else "0")
         else:
-            got = sorted(f.id for f in db.region(seqid=seqid, end=b, completely_within=within))
+            got = ids(db.region(seqid=seqid, end=b, completely_within=within))
             cmd = "region %s ~ %d ~ ~ %s" % (enc(seqid), b, "1" if within else "0")
         return got, None, cmd
     lim = (seqid, a, b) if kind != "limit_all_str" else "%s:%d-%d" % (seqid, a, b)
@@ -164,8 +167,7 @@ def do_query(db, feats, q):
         got = db.parents(child, limit=lim, completely_within=within)
         want = brute([feats[0]] if kids else [], seqid, a, b, within, None, None)
         cmd = "rel parents %s ~ %s" % (enc(child), dbside.cmd_query(limit=(seqid, a, b), within=within))
-    got = sorted(f.id for f in got)
-    return got, want, cmd
+    return ids(got), want, cmd
 
 
 def check_one_sided(case, feats, q, got, res):
@@ -209,6 +211,131 @@ def check_query(case, db, feats, res):
     return "judged", got, want, cmd
 
 
+def judge_answer(case, feats, q, got, want, res, which):
+    """one answer of an interleaved case (ids, sorted) against its brute-force answer / the one-sided oracle"""
+    if want is None:
+        check_one_sided(dict(case, which=which), feats, q, got, res)
+    elif got != want:
+        common.fail(res, case, "interleaved_result_wrong",
+                    "%s (%s), consumed while another query result of the same FeatureDB was being consumed, does not "
+                    "return exactly the %s features" % (q["query"], which, "contained" if q["completely_within"] else "overlapping"),
+                    which=which, observed=got, expected=want)
+
+
+def check_interleaved(case, db, feats, res):
+    """several query results of ONE FeatureDB object alive at once: every one of them must be exactly its brute-force
+    answer.  mode 'alternate': the iterators of case['queries'] are advanced in the order case['schedule'] says, then
+    drained; mode 'nested': for every feature the outer query yields, an inner query about that feature's interval is run
+    to its end before the outer one is advanced again.  returns [(model command, ids)] of every query, None if it raised"""
+    answers = []
+    try:
+        if case["mode"] == "alternate":
+            qs = case["queries"]
+            opened = [do_query(db, feats, q, lazy=True) for q in qs]
+            its = [iter(o[0]) for o in opened]
+            gots = [[] for _ in qs]
+            live = [True] * len(qs)
+            for i in case["schedule"]:
+                if i < len(qs) and live[i]:
+                    try:
+                        gots[i].append(next(its[i]).id)
+                    except StopIteration:
+                        live[i] = False
+            for i in range(len(qs)):
+                if live[i]:
+                    gots[i].extend(f.id for f in its[i])
+            for i, (q, (_, want, cmd)) in enumerate(zip(qs, opened)):
+                judge_answer(case, feats, q, sorted(gots[i]), want, res, "query %d of %d" % (i + 1, len(qs)))
+                answers.append((cmd, sorted(gots[i]), want))
+            return answers
+        q, inner = case["query"], case["inner"]
+        ft, within = inner["featuretype"], inner["completely_within"]
+        fts = None if ft is None else ([ft] if isinstance(ft, str) else list(ft))
+        byid = {f["id"]: f for f in feats}
+        it, want, cmd = do_query(db, feats, q, lazy=True)
+        outer = []
+        for g in it:
+            outer.append(g.id)
+            rec = byid.get(g.id)
+            if rec is None or g.start is None or g.end is None:
+                continue
+            if inner["form"] == "feature":
+                got = db.region(g, featuretype=ft, completely_within=within)
+                strand = rec["strand"]
+            elif inner["form"] == "tuple":
+                got = db.region((g.seqid, g.start, g.end), featuretype=ft, completely_within=within)
+                strand = None
+            else:
+                got = db.all_features(limit=(g.seqid, g.start, g.end), featuretype=ft, completely_within=within)
+                strand = None
+            got = sorted(f.id for f in got)
+            iwant = brute(feats, g.seqid, g.start, g.end, within, strand, fts)
+            iq = {"query": "region(%s)" % inner["form"] if inner["form"] != "limit_all" else "all_features(limit=)",
+                  "completely_within": within}
+            judge_answer(case, feats, iq, got, iwant, res, "inner query about %s" % g.id)
+            if inner["form"] == "limit_all":
+                icmd = "q " + dbside.cmd_query(ft=fts or [], limit=(g.seqid, g.start, g.end), within=within)
+            else:
+                icmd = "region %s %d %d %s %s %s" % (enc(g.seqid), g.start, g.end, "~" if strand is None else enc(strand),
+                                                     "~" if fts is None else enc_list(fts), "1" if within else "0")
+            answers.append((icmd, got, iwant))
+        judge_answer(case, feats, q, sorted(outer), want, res, "outer query")
+        answers.append((cmd, sorted(outer), want))
+        return answers
+    except Exception as ex:
+        common.fail(res, case, "query_raised", "interleaved queries raised %r" % ex, error=dbside.err_name(ex),
+                    observed=repr(ex))
+        return None
+
+
+KINDS = ["region_tuple", "region_kw", "region_str", "region_str_strand", "region_seqid_only", "region_feature",
+         "region_noseqid", "one_sided", "limit_all", "limit_all_str", "limit_type", "limit_children", "limit_parents"]
+
+
+def rand_iquery(r, feats, kinds=KINDS):
+    """a query for the interleaved cases: mostly wide windows (several rows in the answer)"""
+    x = r.random()
+    if x < 0.5:
+        a = r.choice([1, 1, 1, max(1, M - 3 * SIZES[0]), r.randrange(1, SIZES[0])])
+        b = a + r.choice([M, 2 * M, M - 2, 3 * SIZES[0], SIZES[2], SIZES[3]])
+    elif x < 0.8:
+        f0 = r.choice(feats)
+        if iv(f0["start"]) is not None and iv(f0["end"]) is not None:
+            a = max(1, iv(f0["start"]) - r.choice([0, 1, SIZES[0], SIZES[1]]))
+            b = max(a, iv(f0["end"]) + r.choice([0, 1, SIZES[0], SIZES[1]]))
+        else:
+            a, b = 1, M
+    else:
+        a = boundary_coord(r)
+        b = a + r.choice([0, 1, SIZES[0], SIZES[1], SIZES[2]])
+    kind = r.choice(kinds)
+    q = {"query": kind, "seqid": r.choice(["chr1", "chr1", "chr1", "chr2"]), "start": a, "end": b,
+         "completely_within": r.random() < 0.35, "strand": r.choice([None, None, None, "+", "-"]),
+         "featuretype": r.choice([None, None, None, "exon", ["exon", "CDS"], ["gene"]])}
+    if kind == "one_sided":
+        q["one_sided"] = r.choice(["start", "end"])
+    return q
+
+
+def rand_interleaved(r, feats):
+    """the extra fields of an interleaved case"""
+    if r.random() < 0.5:
+        n = r.choice([2, 2, 2, 3])
+        qs = [rand_iquery(r, feats) for _ in range(n)]
+        if r.random() < 0.3:
+            qs[1] = dict(qs[0])                       # the same query twice, side by side
+        if r.random() < 0.5:
+            sched = [i for _ in range(r.randrange(1, 12)) for i in range(n)]          # strict alternation
+        else:
+            sched = [r.randrange(n) for _ in range(r.randrange(2, 30))]
+        return dict(mode="alternate", queries=qs, schedule=sched)
+    outer = rand_iquery(r, feats, kinds=["region_tuple", "region_kw", "region_str", "region_seqid_only", "region_noseqid",
+                                         "region_feature", "limit_all", "limit_type", "limit_children", "one_sided"])
+    inner = {"form": r.choice(["feature", "feature", "tuple", "limit_all"]),
+             "featuretype": r.choice([None, None, "exon", ["exon", "CDS"]]), "completely_within": r.random() < 0.4}
+    return dict(mode="nested", query=outer, inner=inner)
+
+
 def move_feature(db, f0, ns, ne):
     """fetch, change coordinates, update with replace: the stored bin has to follow the new coordinates"""
     import warnings
@@ -239,13 +366,16 @@ def judge(ctx, case):
         common.fail(res, case, "create_db_raised",
                     "create_db raised on a plain GFF3 feature set: " + rep, error=rep, observed=rep)
         return res
-    if case["scenario"] != "query":
+    if case["scenario"] not in ("query", "interleaved"):
         return res
     byid = {f["id"]: f for f in feats}
     for fid, ns, ne in case.get("moves", []):
         if fid in byid and iv(byid[fid]["start"]) is not None and iv(byid[fid]["end"]) is not None:
             move_feature(db, byid[fid], ns, ne)
-    check_query(case, db, feats, res)
+    if case["scenario"] == "interleaved":
+        check_interleaved(case, db, feats, res)
+    else:
+        check_query(case, db, feats, res)
     return res
 
 
@@ -256,8 +386,9 @@ def run(ctx):
     res.rule = ("feature sets of 5-40 features (start <= end or '.') with ends on / one off / two off bin boundaries of "
                 "every level, around 2^29 and beyond; queries 1 <= start <= end placed likewise; tuple, 'seqid:start-end' "
                 "string and Feature forms; seqid omitted; one-sided; completely_within on/off; strand and featuretype "
-                "restrictions; limit= of all_features / features_of_type / children / parents. non-trivial = distinct "
-                "(feature set, query) with a non-empty brute-force answer")
+                "restrictions; limit= of all_features / features_of_type / children / parents; plus several such results of one "
+                "FeatureDB alive at once (nested loops, iterators advanced alternately). non-trivial = distinct "
+                "(feature set, query) with a non-empty brute-force answer, or an interleaved case with two answers of >= 2 rows")
     cmds, exp, tags = [], [], []
     nsets = 25 if not ctx.thorough else 300
     nq = 40 if not ctx.thorough else 80
@@ -330,6 +461,22 @@ def run(ctx):
                 res.nontriv((si, kind, seqid, a, b, within, strand, str(ft)))
             if len(res.samples) < 3 and want:
                 res.sample({k: v for k, v in inp.items() if k != "lines"} | {"answer": want})
+        # several results of this FeatureDB object alive at once: nested loops (for every feature of a window, what
+        # overlaps it) and iterators advanced alternately - every answer is still exactly its brute-force answer
+        for ii in range(8 if not ctx.thorough else 12):
+            case = mk_case("interleaved", orig_lines, orig_feats, moves, **rand_interleaved(r, feats))
+            res.evaluations += 1
+            res.count("interleaved_" + case["mode"])
+            answers = check_interleaved(case, db, feats, res)
+            if answers is None:
+                continue
+            for cmd, got, want in answers:
+                cmds.append(cmd); exp.append("SET " + enc_list(got))
+                tags.append(("interleaved " + case["mode"], repr({k: case[k] for k in ("queries", "schedule", "query", "inner")
+                                                                  if k in case})))
+            if sum(1 for _, got, want in answers if len(want or got) >= 2) >= 2:
+                res.nontriv((si, "interleaved", ii))
+                res.count("interleaved_two_answers_with_2+_rows")
         # region() without any position restriction, or with an empty featuretype collection: outside the property (the
         # real code hands sqlite an incomplete statement); correspondence only - the model says OperationalError too
         if si % 10 == 0:
